@@ -292,27 +292,36 @@ def margin_rules(ctx, w, S, R):
     b = w.body(rf)
     T = w.terms(rf)
     found = False
+    new_rows = ("load", ("arg3",))
     for blk in sorted(b.normal_blocks()):
         t = b.term(blk)
         if t["k"] != "switch":
             continue
-        d = T.operand(t["discr"], (blk, b.n_stmts(blk)))
-        if d[0] != "discr" or d[1][0] != "call" or not d[1][1].endswith("::cmp"):
-            continue
-        args = d[1][2]
-        if len(args) != 2:
-            continue
-        if not (args[1] == ("ref", False, rows_t) or args[0] == ("ref", False, rows_t)):
+        d = WD.strip_names(T.operand(t["discr"], (blk, b.n_stmts(blk))))
+        # the decision "did the height change?": `rows.cmp(&self.rows)`, `rows != self.rows` or `rows == self.rows`
+        edges = None            # [(name, target, changed?)]
+        if d[0] == "discr" and d[1][0] == "call" and d[1][1].endswith("::cmp") and len(d[1][2]) == 2:
+            args = [x[2] if x[0] == "ref" else x for x in d[1][2]]
+            if set(args) == {new_rows, rows_t}:
+                edges = [({255: "Less", 0: "Equal", 1: "Greater"}.get(val, str(val)), tgt, val != 0) for val, tgt in t["targets"]]
+        elif d[0] == "binop" and d[1] in ("Ne", "Eq") and {d[2], d[3]} == {new_rows, rows_t}:
+            edges = []
+            for val, tgt in t["targets"]:
+                truth = bool(val)
+                changed = truth if d[1] == "Ne" else (not truth)
+                edges.append(("changed" if changed else "Equal", tgt, changed))
+            if t.get("otherwise") is not None:
+                truth = True                 # bool switch: the listed value is 0 (false), `otherwise` is true
+                changed = truth if d[1] == "Ne" else (not truth)
+                edges.append(("changed" if changed else "Equal", t["otherwise"], changed))
+        if edges is None:
             continue
         found = True
-        for val, tgt in t["targets"]:
-            name = {255: "Less", 0: "Equal", 1: "Greater"}.get(val, str(val))
-            region = b.reachable_from([tgt])
+        for name, tgt, changed in edges:
             for fld in (tm, bm):
                 wpts = {pt for pt, ps in E.stmt_writes[rf].items() if fld in ps}
-                # writes that belong to this arm: blocks controlled by this edge
                 arm_w = {pt for pt in wpts if b.edge_controls((blk, tgt), pt[0])}
-                if val == 0:
+                if not changed:
                     ctx.check(not arm_w, "V6", "resize:Equal:%s" % fld[1], "resize resets %s although the height did not change (a width-only change must keep the region)" % fld[1],
                               loc=w.fn_loc(rf), sample={"arm": name, "field": fld[1], "writes": 0})
                 else:
@@ -323,20 +332,20 @@ def margin_rules(ctx, w, S, R):
                     for pt in arm_w:
                         blkj = b.blocks[pt[0]]["stmts"][pt[1]]
                         val_t = WD.strip_names(T.rvalue(blkj["rv"], pt))
-                        want = ("const", 0) if fld == tm else ("binop", "Sub", ("load", ("arg3",)), ("const", 1))
+                        want = ("const", 0) if fld == tm else ("binop", "Sub", new_rows, ("const", 1))
                         ok2 = val_t == want or (fld == bm and val_t == ("binop", "Sub", rows_t, ("const", 1)) and
                                                 any(b.path_exists(wp, pt) for wp, ps2 in E.stmt_writes[rf].items() if ("arg1", R["rows"]) in ps2))
                         ctx.check(ok2, "V6", "resize:%s:%s:value" % (name, fld[1]), "resize sets %s to %s; a height change must reset the region to the full screen" % (fld[1], w.tstr(rf, val_t)),
                                   loc=w.stmt_loc(rf, pt))
-        # every margin write in resize sits in a non-Equal arm of this switch
+        # every margin write in resize sits on a height-changed edge of this decision
         for fld in (tm, bm):
             for pt in sorted({pt for pt, ps in E.stmt_writes[rf].items() if fld in ps}):
-                ok = any(val != 0 and b.edge_controls((blk, tgt), pt[0]) for val, tgt in t["targets"])
+                ok = any(changed and b.edge_controls((blk, tgt), pt[0]) for name, tgt, changed in edges)
                 ctx.check(ok, "V6", "resize:guarded:%s:%s" % (fld[1], shared.site_key(w, rf, pt)),
                           "resize writes %s outside the height-changed arms" % fld[1], loc=w.stmt_loc(rf, pt))
     if not found:
         ctx.missing_anchor("V6", "comparison of the new height with the current one in %s" % rf)
-    ctx.floor("V6", 10, "margin writer obligations")
+    ctx.floor("V6", 8, "margin writer obligations")
 
 
 def wrap_pending_rule(ctx, w, S, R):
